@@ -744,6 +744,9 @@ def check(P, R, tier):
     check_hang(P, R, tu)
     check_ymd2daisy(P, R, tu, base)
     check_conv(P, R, tu)
+    import convdecode
+    nc = convdecode.run_parallel(R, tu, "RF2-conv", quick=(tier != "thorough"), jobs=12)
+    R.floor("RF2-conv", "decoded converter results over the 21 year classes", nc, 100000)
     import lentab
     n = lentab.check(P, R, tu, {"mdays", "m01wd", "ydays"}, rule="RF2-closed")
     R.floor("RF2-closed", "entries of calendar tables spelled as closed forms", n, 200)
